@@ -6,6 +6,7 @@ import (
 	"fmt"
 	"runtime"
 	"strings"
+	"syscall"
 	"time"
 
 	"github.com/kstenerud/go-concise-encoding/ce"
@@ -40,11 +41,21 @@ func measureAlloc(f func()) c08Measure {
 	var a, b runtime.MemStats
 	runtime.GC()
 	runtime.ReadMemStats(&a)
-	t0 := time.Now()
+	t0 := processCPU()
 	f()
-	d := time.Since(t0)
+	d := processCPU() - t0
 	runtime.ReadMemStats(&b)
 	return c08Measure{alloc: b.TotalAlloc - a.TotalAlloc, mallocs: b.Mallocs - a.Mallocs, cpu: d}
+}
+
+// processCPU: user+system CPU time consumed by this process so far. Unlike wall time it does not grow while the
+// process waits for a core on a loaded machine, which is what makes it usable as a (supplementary) oracle.
+func processCPU() time.Duration {
+	var ru syscall.Rusage
+	if err := syscall.Getrusage(syscall.RUSAGE_SELF, &ru); err != nil {
+		return 0
+	}
+	return time.Duration(ru.Utime.Nano() + ru.Stime.Nano())
 }
 
 type c08Decoder struct {
@@ -275,22 +286,45 @@ func c08FamilyB(c *fx.Ctx) {
 			cfg.Rules.MaxLocalReferenceCount = 1 << 30
 			var ms [4]c08Measure
 			var lens [4]int
+			docs := make([][]byte, 4)
 			for i := 0; i < 4; i++ {
-				n := sh.n0 << uint(i)
-				doc := sh.gen(n)
-				lens[i] = len(doc)
-				c.TraceInput(func() string { return fmt.Sprintf("growth %s n=%d %s", sh.name, n, dec.name) })
-				dec.run(doc, cfg) // warm-up
-				best := c08Measure{cpu: time.Hour}
-				for r := 0; r < 3; r++ {
-					m := measureAlloc(func() { dec.run(doc, cfg) })
-					if m.cpu < best.cpu {
-						best = m
+				docs[i] = sh.gen(sh.n0 << uint(i))
+				lens[i] = len(docs[i])
+			}
+			series := func(reps int) [4]c08Measure {
+				var out [4]c08Measure
+				for i := 0; i < 4; i++ {
+					n := sh.n0 << uint(i)
+					doc := docs[i]
+					c.TraceInput(func() string { return fmt.Sprintf("growth %s n=%d %s", sh.name, n, dec.name) })
+					dec.run(doc, cfg) // warm-up
+					best := c08Measure{cpu: time.Hour}
+					for r := 0; r < reps; r++ {
+						m := measureAlloc(func() { dec.run(doc, cfg) })
+						if m.cpu < best.cpu {
+							best = m
+						}
+					}
+					out[i] = best
+					c.Add("evaluations", 1)
+				}
+				return out
+			}
+			superlinearTime := func(m [4]c08Measure) bool {
+				// CPU time (min over repetitions) with a 3x margin over linear, on the whole range and on both upper doublings
+				return m[3].cpu > 400*time.Millisecond && m[3].cpu > 24*m[0].cpu && 2*m[3].cpu > 5*m[2].cpu && 2*m[2].cpu > 5*m[1].cpu
+			}
+			ms = series(3)
+			timeFlag := superlinearTime(ms)
+			for attempt := 0; timeFlag && attempt < 2; attempt++ {
+				// a timing verdict must reproduce: measure the whole series again (more repetitions) and keep the minima
+				again := series(5)
+				for i := range ms {
+					if again[i].cpu < ms[i].cpu {
+						ms[i].cpu = again[i].cpu
 					}
 				}
-				ms[i] = best
-				c.Add("evaluations", 1)
-				c.Tick()
+				timeFlag = superlinearTime(again) && superlinearTime(ms)
 			}
 			c.Add("growth_cases", 1)
 			w := c08Witness{Family: "growth", Shape: sh.name, N: sh.n0, Config: dec.name}
@@ -301,8 +335,8 @@ func c08FamilyB(c *fx.Ctx) {
 				c.Violation(fmt.Sprintf("time:superlinear-allocation-count:%s:%s", sh.name, dec.name), "heap objects allocated grow faster than linearly: "+desc, w)
 			} else if ms[3].alloc > 12*ms[0].alloc+(4<<20) {
 				c.Violation(fmt.Sprintf("time:superlinear-bytes-allocated:%s:%s", sh.name, dec.name), "bytes allocated grow faster than linearly: "+desc, w)
-			} else if ms[3].cpu > 300*time.Millisecond && ms[3].cpu > 24*ms[0].cpu && ms[3].cpu > 5*ms[2].cpu/2*1 && ms[2].cpu > 5*ms[1].cpu/2 {
-				// supplementary: wall time (min of 3) with a 3x margin over linear, confirmed on two consecutive doublings
+			} else if timeFlag {
+				// supplementary: CPU time with a 3x margin over linear, confirmed on two consecutive doublings and reproduced twice
 				c.Violation(fmt.Sprintf("time:superlinear-time:%s:%s", sh.name, dec.name), "decoding time grows faster than linearly: "+desc, w)
 			}
 			// memory bound at the largest size
@@ -325,7 +359,7 @@ func init() {
 		MemLimitKB:   6 * 1024 * 1024,
 		Workers:      16,
 		Rule: "(A) every length-carrying field of CBE (chunk length of all 19 array kinds, a second chunk, media-type length, marker/reference/record/record-type identifier lengths, variable-length integer byte counts, version, custom type code) × declared value in {2^10, 2^16, 2^20, 2^24, 2^30-1, 2^31-1, 2^32, 2^40, 2^62, 2^64-1} (also shifted into the chunk-header position) × payload of 0, 1, 16 bytes × MaxArraySizeBytes in {1 KiB, 1 MiB, default} × 4 decode paths (decoder and unmarshaler, rules on/off): bytes allocated by one decode (runtime.MemStats.TotalAlloc, after a warm-up) must not exceed 2 MiB + 4096 bytes per document byte; a worker killed by the address-space limit is a violation pinned to its document; " +
-			"(B) 25 document shapes (many tiny tokens, nesting, long strings, strings delivered in 1-byte chunks, escapes, comments, verbatim strings, array elements, map keys, markers, padding, whitespace) at sizes n, 2n, 4n, 8n through 3 decode paths: deterministic work counters (heap objects and bytes allocated) at 8n must be at most 12x those at n plus a constant; wall time (min of 3) is a supplementary oracle with a 3x margin over linear confirmed on two consecutive doublings; distinct_nontrivial = (field, declared length) and (shape, path) units",
+			"(B) 25 document shapes (many tiny tokens, nesting, long strings, strings delivered in 1-byte chunks, escapes, comments, verbatim strings, array elements, map keys, markers, padding, whitespace) at sizes n, 2n, 4n, 8n through 3 decode paths: deterministic work counters (heap objects and bytes allocated) at 8n must be at most 12x those at n plus a constant; process CPU time (min over repetitions, reproduced on two further series) is a supplementary oracle with a 3x margin over linear confirmed on two consecutive doublings; distinct_nontrivial = (field, declared length) and (shape, path) units",
 		Assumptions: []string{"running time is not a state predicate: the deciding oracle for 'roughly linear' is the growth of deterministic allocation counters; CPU time only counts with a 3x margin", "single-goroutine decoding makes MemStats deltas deterministic (GC forced before each measurement)"},
 		TrustedBase: []string{"runtime.MemStats"},
 		Guards:      map[string]int64{"length_field_cases": 5000, "growth_cases": 60},
